@@ -11,7 +11,7 @@ TEXT = {
  "C05": ("Lean theorems: the end is a fixpoint of the cursor for every continuation; `completed` is never reset and a pull that starts once it is set receives nothing, under every schedule.", "§7 C05"),
  "C06": ("Lean theorems: after the skip store every continuation delivers nothing (known size); wrapper: skip sets completed, afterwards starting pulls receive nothing; safety invariants hold in histories with skips. Source tie by translation: the Rust functions involved are translated to Lean on every run (tools/rs2lean.py -> Generated/Arith*.lean) and proved, for every machine-word input, to fault nowhere and to compute the model's value with exactly the model's atomic access (GenThms/*.lean): skip_to_end of the four kinds is one store/swap of the length (Atom.skip) and destroys exactly [min(c,len), len) on the consuming kinds.", "§7 C06"),
  "C07": ("Lean theorems: mutual exclusion of the critical section and of next() for all fused scripts (panics included), programs with skips, schedules; calls happen in position order. Happens-before: Lean theorem hb_chain (vector-clock ghost state over SC interleavings, C11 release/acquire through `yielded`) instantiated with the orderings extracted from the current source on every run; and lifted to executions with adversarial stale Acquire/Relaxed loads (IW/Weak.lean: mutex_weak, no_race_weak -- a stale value of `yielded` is below the waiting thread's ticket, so it only makes it spin); partial: not a full C11 semantics (SC per location + stale non-RMW loads), liveness under stale loads not formalised, synchronisation through `reserved`/`completed` ignored (conservative).", "§7 C07"),
- "C08": ("Lean theorems: consumed ∪ dropped-by-chunk = handed out; handed out ∪ dropped-by-Drop = 0..len exactly once for every program and schedule (no skip/get/wrap); skip_to_end drops the rest (fix for D5); open finding D12 as a kernel-checked witness. Ownership ledger theorem KS.exactly_once_all_schedules (every program incl. nth consumption, panicking closures, skips; every schedule; both endings) and its lift KSFault.exactly_once_all_schedules_F to a panicking element destructor at any destruction (fault injection `droppanic` in harness and model).", "§7 C08"),
+ "C08": ("Lean theorems: consumed ∪ dropped-by-chunk = handed out; handed out ∪ dropped-by-Drop = 0..len exactly once for every program and schedule (no skip/get/wrap); skip_to_end drops the rest (fix for D5); open finding D12 as a kernel-checked witness. Ownership ledger theorem KS.exactly_once_all_schedules (every program incl. nth consumption, panicking closures, skips; every schedule; both endings) and its lift KSFault.exactly_once_all_schedules_F to a panicking element destructor at any destruction (fault injection `droppanic` in harness and model). Owning wrapper: IWF.wrapper_exactly_once -- for the full thread machine the driver runs (protocol + reused buffers with stale slots + consumption + drops + panics), every iterator, program, schedule and ending: produced = moved out + destroyed as multisets (FullLedger.lean, 1.6 kLoC, coupling invariant TI of the two model layers).", "§7 C08"),
  "C09": ("Lean theorems: known-size wait-freedom (a called op completes with its next own step in every configuration; steps never touch other threads); wrapper: deadlock freedom in every reachable configuration (panics and skips included): some working thread is never waiting, spin iterations are harmless; the ticket holder enters without waiting. Termination under every weakly fair schedule is proved for all programs (single/chunk/buffered pulls, skips, and the looping adaptors) over every wrapped iterator that eventually stops yielding: potential + deadlock freedom + generic fairness lemma.", "§7 C09"),
  "C10": ("Lean theorems: delivered ++ remainder = 0..len for every program and schedule; remainder empty after skip and always in range. Source tie by translation: the Rust functions involved are translated to Lean on every run (tools/rs2lean.py -> Generated/Arith*.lean) and proved, for every machine-word input, to fault nowhere and to compute the model's value with exactly the model's atomic access (GenThms/*.lean): into_seq_iter of slice and range yields [min(c,len), len) resp. the values [start+min(c,len), stop).", "§7 C10"),
  "C11": ("Lean theorems: reported length = what continuations can deliver, never increases, zero is definitive (known size); wrapper: completed ⇒ 0, exact hint ⇒ len − reserved, monotone. Source tie by translation: the Rust functions involved are translated to Lean on every run (tools/rs2lean.py -> Generated/Arith*.lean) and proved, for every machine-word input, to fault nowhere and to compute the model's value with exactly the model's atomic access (GenThms/*.lean): try_get_len of the four kinds is one Acquire load c and returns lenOf len c.", "§7 C11"),
